@@ -82,9 +82,14 @@ def small_text(k, choice, strsplit=None, semi=None):
         out = (other % "p") + " ; " + out
     if semi in ("post", "both"):
         out = out + "; " + (other % "q")
+    if semi == "lead":
+        # a line may start with ';' (F2008 lifted the restriction): nothing stands in front of it
+        out = "; " + out + "\n  ; ; " + (other % "q") + " ; " + (other % "r")
     if semi == "empty":
         # consecutive ';' (with or without blanks between them) count as one
         out = (other % "p") + " ; ; " + out + ";; " + (other % "q") + " ;"
+    if semi == "reflead":
+        out = out + "\n" + (other % "q") + "\n" + (other % "r")
     if semi == "ref":
         out = (other % "p") + "\n" + out + "\n" + (other % "q")
     elif semi == "refpre":
@@ -130,7 +135,7 @@ def small_layouts(k):
                     out.append((None, (pre + i, p, lead)))
     # ';' joins: the statement (with its label / construct name) before, after and between other statements,
     # alone and combined with every single break
-    for semi in ("pre", "post", "both", "empty"):
+    for semi in ("pre", "post", "both", "empty", "lead"):
         out.append((tuple([0] * n), None, semi))
         for i in range(n):
             for b in (1, 2, 3, 7):
@@ -225,7 +230,7 @@ def check(payload):
             k0, c, ss, semi = items[j]
             k = (k0, semi)
             if k not in refs:
-                rt, _ = small_text(k0, None, None, {None: None, "pre": "refpre", "post": "refpost", "both": "ref", "empty": "ref"}[semi])
+                rt, _ = small_text(k0, None, None, {None: None, "pre": "refpre", "post": "refpost", "both": "ref", "empty": "ref", "lead": "reflead"}[semi])
                 refs[k] = (parse_shape(rt, "f2003")[0], rt)
             choice = [BREAKS[x] for x in c] if c is not None else None
             text, _ = small_text(k0, choice, ss, semi)
